@@ -475,6 +475,10 @@ static void cmd_oget(int nt, char **t)
 	/* documented corner forms: no result pointer (existence test), no object */
 	{ struct json_object *v4 = (struct json_object *)0x1; json_bool f3 = json_object_object_get_ex(H[ho], k, NULL), f4 = json_object_object_get_ex(NULL, k, &v4);
 	  ob_printf(&out, " exists=%d noobj=%d,%d", (int)f3, (int)f4, v4 == NULL); }
+	/* the same question asked of something that is not an object: answer "no", result pointer cleared */
+	{ struct json_object *notobj = json_object_new_int(5), *v5 = (struct json_object *)0x1; json_bool f5, f6;
+	  f5 = json_object_object_get_ex(notobj, k, &v5); f6 = json_object_object_get_ex(notobj, k, NULL);
+	  ob_printf(&out, " notobj=%d,%d,%d", (int)f5, v5 == NULL, (int)f6); json_object_put(notobj); }
 	if (nt > 3) { int hd = hidx(t[3]); H[hd] = v; Hset[hd] = 1; }
 	free(kb);
 }
